@@ -33,6 +33,9 @@ pub enum EstLie {
     TagZero,
     /// a balance in the channel-id slot of both messages
     BalanceInCid,
+    /// slot (0 cid, 2 lock, 3 cb, 4 mb) raised by delta in the state and lowered by delta in the
+    /// close state: the two lies cancel in any unweighted aggregate of the two sub-proofs
+    Compensating(u8, ScSpec),
 }
 
 impl EstLie {
@@ -47,6 +50,7 @@ impl EstLie {
             EstLie::NonceInTag(_) => "nonce-in-tag-slot".into(),
             EstLie::TagZero => "tag-zero".into(),
             EstLie::BalanceInCid => "balance-in-cid-slot".into(),
+            EstLie::Compensating(s, _) => format!("compensating.{}", slot_name(*s, false)),
         }
     }
 }
@@ -70,6 +74,7 @@ pub fn est_strategy_label(s: &EstStrategy) -> String {
         EstStrategy::TLast { close, fix_revealed } => format!("scalar-commitment-of-{}-chosen-after-challenge{}", if *close { "close" } else { "state" }, if *fix_revealed { "+revealed" } else { "" }),
         EstStrategy::CLast { close, fix_revealed } => format!("commitment-of-{}-chosen-after-challenge{}", if *close { "close" } else { "state" }, if *fix_revealed { "+revealed" } else { "" }),
         EstStrategy::Mutate(..) => "mutated-atoms".into(),
+        EstStrategy::AnswerAsAgreed => "responses-as-if-agreed-values-were-committed".into(),
     }
 }
 
@@ -97,6 +102,7 @@ fn lie_strategy() -> impl Strategy<Value = EstLie> {
         2 => any::<u64>().prop_map(EstLie::NonceInTag),
         1 => Just(EstLie::TagZero),
         1 => Just(EstLie::BalanceInCid),
+        4 => (prop_oneof![Just(0u8), Just(2u8), Just(3u8), Just(4u8)], delta_spec()).prop_map(|(s, d)| EstLie::Compensating(s, d)),
     ]
 }
 
@@ -109,12 +115,16 @@ fn strat_strategy() -> impl Strategy<Value = EstStrategy> {
         4 => (any::<bool>(), any::<bool>()).prop_map(|(close, fix_revealed)| EstStrategy::TLast { close, fix_revealed }),
         4 => (any::<bool>(), any::<bool>()).prop_map(|(close, fix_revealed)| EstStrategy::CLast { close, fix_revealed }),
         2 => (any::<u8>(), any::<u64>()).prop_map(|(n, s)| EstStrategy::Mutate(n, s)),
+        4 => Just(EstStrategy::AnswerAsAgreed),
     ]
 }
 
 fn strategy(_t: Tier) -> impl Strategy<Value = Case> {
-    (0u8..2, bal_sel(), bal_sel(), any::<u16>(), lie_strategy(), strat_strategy(), any::<u64>())
-        .prop_map(|(merchant, cb, mb, ctx, lie, strategy, seed)| Case { merchant, cb, mb, ctx, lie, strategy, seed })
+    (0u8..2, bal_sel(), bal_sel(), any::<u16>(), lie_strategy(), strat_strategy(), any::<bool>(), any::<u64>()).prop_map(|(merchant, cb, mb, ctx, lie, strategy, matched, seed)| {
+        // cancelling lies only have a chance together with the answer-as-agreed strategy
+        let strategy = if matched && matches!(lie, EstLie::Compensating(..)) { EstStrategy::AnswerAsAgreed } else { strategy };
+        Case { merchant, cb, mb, ctx, lie, strategy, seed }
+    })
 }
 
 /// Template (layout only) of an establish proof.
@@ -137,8 +147,14 @@ fn oracle(c: &Case, rec: &Rec) -> R {
     let nonce = rand_scalar(c.seed ^ 0x11);
     let lock = rand_scalar(c.seed ^ 0x12);
     let mut h = EstHidden { state: [public.cid, nonce, lock, public.cb, public.mb], close: [public.cid, CLOSE, lock, public.cb, public.mb] };
+    let agreed = h.clone();
     match &c.lie {
         EstLie::None => {}
+        EstLie::Compensating(s, d) => {
+            let k = match *s { 0 => 0usize, 2 => 2, 3 => 3, _ => 4 };
+            h.state[k] += nonzero(d);
+            h.close[k] -= nonzero(d);
+        }
         EstLie::State(..) => {} // applied below
         EstLie::Close(s, d) => h.close[(*s % 5) as usize] += nonzero(d),
         EstLie::Both(s, d) => {
@@ -169,7 +185,7 @@ fn oracle(c: &Case, rec: &Rec) -> R {
         EstStrategy::DropLink(k) => Some(match *k { 0 => 0usize, 2 => 2, 3 => 3, _ => 4 }),
         _ => None,
     };
-    let mut f = EstForger::commit(&m.pk, &template, &h, drop_link, c.seed);
+    let mut f = EstForger::commit(&m.pk, &template, &h, &agreed, drop_link, c.seed);
 
     // the challenge the verifier derives for the draft (same hashed fields as the final proof,
     // unless the strategy changes a hashed field afterwards)
